@@ -46,7 +46,23 @@ ITEMS = [
  ('bytes.rs', 'block', r'impl\s+Buf\s+for\s+Bytes\b', 'impl Buf for Bytes'),
  ('serde.rs', 'block', r'macro_rules!\s*serde_impl', 'serde_impl!'),
 ]
-def norm(s): return re.sub(r'\s+', ' ', s).strip()
+KEYWORDS = set("as break const continue crate else enum extern false fn for if impl in let loop match mod move mut pub ref return self Self static struct super trait true type unsafe use where while dyn".split())
+def alpha(s):
+    """rename the identifiers a body binds itself (let / for / closure parameters / match-arm and if-let patterns) to v1, v2, ... in order of
+    binding, so that a pure renaming of locals does not count as a difference.  Occurrences after `.` or `::` (fields, methods, paths) are left alone."""
+    bound = []
+    def add(pat):
+        for t in re.findall(r"(?<![\w:$'])(?<!(?<!\.)\.)([a-z_][A-Za-z0-9_]*)\b(?!\s*(?:::|\(|!|\{))", pat):
+            if t not in KEYWORDS and t != "_" and t not in bound: bound.append(t)
+    for m in re.finditer(r"\blet\s+(?:mut\s+)?([^=;]+?)(?::[^=;]+)?=(?!=)", s): add(m.group(1))
+    for m in re.finditer(r"\bfor\s+(.+?)\s+in\b", s): add(m.group(1))
+    for m in re.finditer(r"(?<![|\w)])\|([^|{};]*)\|(?!\|)", s): add(re.sub(r":[^,|]+", "", m.group(1)))
+    for m in re.finditer(r"(?:\b[A-Z]\w*(?:::\w+)*)\s*\(([^()]*)\)\s*(?:=>|=(?!=))", s): add(m.group(1))
+    out = s
+    for i, t in enumerate(bound):
+        out = re.sub(r"(?<![\w$'])(?<!(?<!\.)\.)(?<!::)%s\b" % re.escape(t), "v%d" % (i + 1), out)
+    return out
+def norm(s): return alpha(re.sub(r'\s+', ' ', s).strip())
 def block_from(src, start):
     i = src.index('{', start); depth = 0; j = i
     while True:
